@@ -124,9 +124,18 @@ def make(**params):
     return Part(**params)
 
 
+def tierb(prop, alg, vector, k, holes, mandatory=True, **kw):
+    """tier B: a repository vector with the positions `holes` replaced by solver variables (>= 0, unbounded)"""
+    items = vector['items']
+    fixed = {str(i): v for i, v in enumerate(items) if i not in holes}
+    j = job(prop, alg, len(items), k, mandatory=mandatory, fixed=fixed, **kw)
+    j['id'] = 'tierB %s %s k=%d holes=%s %s' % (alg, vector['name'], k, list(holes), ' '.join('%s=%s' % (a, b) for a, b in sorted(kw.items()) if a != 'checks'))
+    return j
+
+
 def job(prop, alg, n, k, mandatory=True, **kw):
     params = dict(alg=alg, n=n, k=k, **kw)
-    tag = ' '.join('%s=%s' % (a, b) for a, b in sorted(kw.items()) if a not in ('checks',) and b not in (None,))
+    tag = ' '.join('%s=%s' % (a, b) for a, b in sorted(kw.items()) if a not in ('checks', 'fixed') and b not in (None,))
     j = {'id': '%s (%d,%d) %s' % (alg, n, k, tag), 'factory': 'harness.part:make', 'params': params}
     if not mandatory:
         j['mandatory'] = False
